@@ -88,8 +88,12 @@ Cfgs == CASE CfgSet = "default" -> {Default}
                                     With(Default, <<"align_trailing_comment", TRUE>>),
                                     With(With(With(Default, <<"sort_declaration_property", TRUE>>), <<"align_declaration_property", TRUE>>),
                                          <<"align_trailing_comment", TRUE>>)}
-          [] CfgSet = "propcfg2" -> {Default, With(With(With(Default, <<"sort_declaration_property", TRUE>>), <<"align_declaration_property", TRUE>>),
+          [] CfgSet = "propcfg2" -> {Default, With(Default, <<"align_trailing_comment", TRUE>>), With(With(With(Default, <<"sort_declaration_property", TRUE>>), <<"align_declaration_property", TRUE>>),
                                                    <<"align_trailing_comment", TRUE>>)}
+          [] CfgSet = "sweep"   -> {With(Default, <<"line_width", 40>>), With(With(Default, <<"line_width", 40>>), <<"else_if", TRUE>>),
+                                    With(With(With(Default, <<"line_width", 40>>), <<"else_if", TRUE>>), <<"break_compound_conditions", FALSE>>),
+                                    With(With(Default, <<"line_width", 40>>), <<"explicit_string_concat", FALSE>>),
+                                    With(With(With(Default, <<"line_width", 40>>), <<"indent_width", 4>>), <<"always_next_line_else_if", TRUE>>)}
           [] CfgSet = "sortonly" -> {With(Default, <<"sort_declaration", TRUE>>),
                                      With(With(Default, <<"sort_declaration", TRUE>>), <<"sort_declaration_property", TRUE>>)}
           [] CfgSet = "sempairs" -> {Default} \cup {With(With(Default, d1), d2) : d1 \in SemPairDeviations, d2 \in SemPairDeviations}
@@ -162,7 +166,7 @@ ReqEquiv(in, out, c) ==
 \* lines.go DeclarationPropertyLines.Sort: sort.Slice (insertion sort below 12 elements) with
 \*   less(i, j) == ~isObject(i) /\ Key(i) < Key(j)
 \* keys of the generated documents, in byte order of the printed key
-KeyOrder == <<"\"a\"", "\"b\"", "\"k%20e\"", ".backend", ".connect_timeout", ".host", ".port", ".probe", ".quorum", ".request",
+KeyOrder == <<"\"a\"", "\"b\"", "\"k%20e\"", "\"l\"q\"", ".backend", ".connect_timeout", ".host", ".port", ".probe", ".quorum", ".request",
               ".retries", ".ssl", ".threshold", ".weight">>
 \* the printed key of a table line is the source literal (escapes kept)
 KeyText(p) == IF p.k = "tprop" THEN (IF p.key = "k e" THEN "\"k%20e\"" ELSE "\"" \o p.key \o "\"") ELSE "." \o p.key
@@ -211,6 +215,8 @@ DropFirst(body) == IF body # <<>> /\ body[1].k = "block" THEN [body EXCEPT ![1].
 FirstBlockBlank(y) ==
   CASE y.k \in {"sub", "block", "else", "case"} -> [y EXCEPT !.body = DropFirst(@)]
     [] y.k \in {"elif", "if"} -> [y EXCEPT !.then = DropFirst(@)]
+RECURSIVE StartsGroup(_)
+StartsGroup(e) == e.k = "group" \/ (e.k = "infix" /\ StartsGroup(e.l)) \/ (e.k = "postfix" /\ StartsGroup(e.left))
 RECURSIVE Norm(_, _, _)
 Norm(x, c, fn) ==
   LET y == [f \in DOMAIN x |->
@@ -220,7 +226,8 @@ Norm(x, c, fn) ==
   IN CASE y.k = "remove" /\ c.should_use_unset -> [y EXCEPT !.k = "unset"]                     \* formatRemoveStatement
        [] y.k = "elif" -> [y EXCEPT !.p_kw = IF c.else_if THEN "else if" ELSE @]               \* formatIfStatement
        [] y.k = "return" /\ y.expr.k # "none" ->                                               \* formatReturnStatement
-            [y EXCEPT !.p_paren = c.return_statement_parenthesis /\ ~fn]
+            \* (the parentheses stay when the printed expression itself would start with one)
+            [y EXCEPT !.p_paren = (c.return_statement_parenthesis /\ ~fn) \/ StartsGroup(y.expr)]
        [] y.k = "infix" /\ y.op = "+" -> [y EXCEPT !.p_explicit = c.explicit_string_concat]    \* formatInfixExpression
        [] y.k = "tprop" -> [y EXCEPT !.p_comma = TRUE]                                         \* EndCharacter ","
        \* formatStatement: a bare block gets its empty line only from the line grouping, i.e. not as the first statement
@@ -269,6 +276,7 @@ Docs == CASE DocSet = "unit"   -> UnitDocs
           [] DocSet = "group2" -> GroupDocs(2)
           [] DocSet = "esc"    -> EscDocs
           [] DocSet = "few"    -> FewDocs
+          [] DocSet = "sweep"  -> SweepDocs
           [] DocSet = "props"  -> PropDocs
           [] DocSet = "sortdocs" -> {d \in MultiDocs(2) : \A i \in DOMAIN d.ds : ~d.ds[i].a.p_blank}
 Eligible(gs) == {i \in DOMAIN gs : (~OnlyDocumented) \/ gs[i].d}
@@ -284,7 +292,9 @@ OneAt(gs, i) ==
                             [at |-> i, m |-> "/*", sp |-> "bare", body |-> i], [at |-> i, m |-> "#", sp |-> "run3", body |-> i],
                             [at |-> i, m |-> "#", sp |-> "mix", body |-> i], [at |-> i, m |-> "//", sp |-> "mix", body |-> i],
                             [at |-> i, m |-> "#", sp |-> "star", body |-> i]}
-                           \cup (IF gs[i].c \in {"lead", "inner"}
+                           \* an empty line in front of the comment: on a line of its own, or inside a statement /
+                           \* expression (`a &&<LF><LF>  # c<LF>  b`)
+                           \cup (IF gs[i].c \in {"lead", "inner", "in"}
                                  THEN {[at |-> i, m |-> "#", sp |-> "blankbefore", body |-> i], [at |-> i, m |-> "/*", sp |-> "blankbefore", body |-> i]}
                                  ELSE {})
         ELSE {})
